@@ -34,6 +34,13 @@
      the probes in the catching task show Some [1]) and C08_guard_escapes_run (_GUARD_BATCH: the RuntimeError
      escapes with a batch scheduled; the next computation flushes only its own batch).
 
+   * C08_paused_task_completes_without_pause (proofs/MachineC08P.v): completing a task whose contexts are already
+     paused (_contexts_active = False, which _pause_contexts establishes BEFORE it calls any pause()) emits the task's
+     EvDone and nothing else - closing its generator runs every open block's __exit__, and none of them calls pause()
+     again.  So a context whose pause() fails PERSISTENTLY (on every call from the k-th on) is asked exactly once and
+     the model's one-shot fault `PauseRaises k e` stands for it; on the implementation the harness's persistent
+     contexts ("sticky") make a second call fail visibly (escaping generator.close()), the monitors judge the rest.
+
    TREE PROGRAMS (proofs/MachineNoUnwind.v; [tree], [pointwise] of proofs/MachineC01.v; one root computation on st0):
    * C08_tree_step_never_raises_already_computed: from a configuration satisfying the C01 invariant CInv no
      step raises FutureIsAlreadyComputed (a returning body's task is not computed; a resumed task has a live
@@ -54,6 +61,8 @@
    known for the rest of the run, which is not proved here).
 
    NOT proved:
+   * anything about a context whose pause() raises when a with block's __exit__ calls it (model: pause_plain never
+     raises; `Exit` has no failing continuation);
    * anything about runs in which FutureIsAlreadyComputed (E_ALREADY, raised by _queue_exit in
      MResume / MRun) unwinds: MUnwind pops _continue_with_task frames without restoring active_task and
      leaves the task stack as it is, the invariant says nothing there.  For TREE programs, and for STREE
@@ -65,7 +74,7 @@
      computation of a history and the same computation on st0 (here: the scheduler-owned fields tasks / sb /
      active are those of st0; heap, batch registry, scoped values and the id counter are user state). *)
 From Asynq Require Import Machine Seq proofs.MachineC08 proofs.MachineC08U proofs.MachineC01 proofs.MachineC01S
-     proofs.MachineNoUnwind.
+     proofs.MachineNoUnwind proofs.MachineC08P.
 
 Theorem C08_active_is_running : forall P h s n t p,
   tasks s = [] -> no_unwind P n (start h s) ->
@@ -276,3 +285,18 @@ Theorem C08_stree_no_unwind_if_guard_silent : forall P p n,
   (forall k, (k < n)%nat -> guard_fires P (run P k (start h s1)) = false) -> no_unwind P n (start h s1).
 Proof. exact (fun P p n HP Ht => stree_no_unwind_iff_guard_silent P HP p Ht n). Qed.
 Print Assumptions C08_stree_no_unwind_if_guard_silent.
+
+Theorem C08_paused_task_completes_without_pause : forall t o s tk,
+  get_task t s = Some tk -> tk_cact tk = false ->
+  trace (complete_task t o s) = EvDone t o :: trace s.
+Proof. exact complete_paused_task. Qed.
+Print Assumptions C08_paused_task_completes_without_pause.
+
+Theorem C08_paused_task_hypotheses_satisfiable :
+  let c := CAsync 1%Z (PauseRaises 1 7%Z) in
+  let tk := mkTask (Some (fun _ => Ret VNone)) YNone [] [c] false false 0%Z 0%Z in
+  let s := put [0%Z] (mkFut None (KTask tk)) (st0 (mkP [] 1000%Z false [])) in
+  get_task [0%Z] s = Some tk /\ tk_cact tk = false /\
+  trace (complete_task [0%Z] (Err 7%Z) s) = [EvDone [0%Z] (Err 7%Z)].
+Proof. exact complete_paused_task_example. Qed.
+Print Assumptions C08_paused_task_hypotheses_satisfiable.
